@@ -1055,7 +1055,8 @@ def lookup_faithfulness(rep: report.Report) -> None:
                 rep.violation(f"C19:lookup:Unit.{which}",
                               f"Unit.{which}(text) answers {p.result} where the registry it looks in gives {want} "
                               f"(name {'bound' if name_in else 'unbound'}, symbol {'bound' if sym_in else 'unbound'}): "
-                              f"names and symbols are not kept apart", families.REPLAY_IMPORTS + LOOKUP_REPLAY)
+                              f"names and symbols are not kept apart", families.REPLAY_IMPORTS + LOOKUP_REPLAY,
+                              soft=True)    # e.g. a memoised lookup answers for the model's registries what it would not for the real ones
                 break
     rep.functions.update(["measured.Unit.named", "measured.Unit.resolve_symbol"])
 
